@@ -72,6 +72,7 @@ def assembly_trace(portfolio, prices, timegrid, op, fix=None, global_only=False,
         with quiet():
             aop = a.setup_optim_problem(prices, timegrid)
         tabs.append(asset_table(aop))
+        tabs[-1]['nodes'] = [str(x) for x in a.node_names]      # the nodes the asset was DECLARED with (independent of its set-up)
     n = len(op.l)
     mr = _maprows(op.mapping)
     for r in mr:
